@@ -226,6 +226,27 @@ def run(ch: Checker) -> None:
     size_token_check(ch, 'C15.4')
     from .c03 import chunk_decoder_checks
     chunk_decoder_checks(ch, 'C15.7', 'C15.7', 'C15.7')
+    ch.rule('C15.11', 'when the chunk decoder is complete the parser\'s body IS the decoder\'s body, whatever it is: on every path of _process_body that finds the decoder complete, self.body was assigned from it '
+                      '(a body that is legitimately empty must not stay None: the rebuild decides by `body is not None` whether to emit the terminating chunk)', 1)
+    pb11 = prog.own_method('HttpParser', '_process_body')
+    g11 = cfg_of(pb11, prog, exc_edges=False)
+    bad11 = None
+    n11 = 0
+    for p in fpaths(g11):
+        ch.paths += 1
+        if p.exit_kind != 'return':
+            continue
+        f11 = allfacts(p)
+        if f11.get('self.chunk.state == chunkParserStates.COMPLETE') is not True:
+            continue
+        n11 += 1
+        sym11 = Sym(p)
+        took = [norm(sym11.value(st.value, i)) for i, st in p.stmts() if isinstance(st, ast.Assign) and attr_chain(st.targets[0]) == 'self.body']
+        if 'self.chunk.body' not in took:
+            bad11 = ('the chunk decoder is complete but self.body is not taken from it on this path (conditions: %s): an empty chunked body leaves self.body at None, and the rebuilt message '
+                     'announces chunked framing without the terminating chunk' % ', '.join('%s=%s' % kv for kv in f11.items() if 'body' in kv[0])[:120], p.describe())
+    ch.check(bad11 is None and n11 > 0, 'C15.11', pb11, 'decoder complete => body taken', 'self.body = self.chunk.body on all %d path(s) that find the decoder complete' % n11,
+             bad11[0] if bad11 else 'no path finds the chunk decoder complete', witness=bad11[1] if bad11 else None)
     ch.import_rules('C06', {'C06.6': 'C15.8'}, 'parse(build(x)) has x\'s headers only if the builders do not write into a header map shared between messages')
     ch.import_rules('C03', {'C03.7': 'C15.9'}, 'the decoder agrees with a reference on every piecewise feed only if a live chunk decoder is never taken for absent')
     ch.import_rules('C03', {'C03.6': 'C15.10'}, 'parse() followed by build() reproduces a message only if the parser does not declare it complete while part of it is still unread')
@@ -253,7 +274,10 @@ def run(ch: Checker) -> None:
         v = sym.value(stored[0][1].value, stored[0][0])
         compressed = isinstance(v, ast.Call) and attr_chain(v.func) == 'gzip.compress'
         want = bool(has and gz)
-        if compressed != want:
+        if has is None:
+            bad5 = ('update_body stores a body on a path that never looks at the Content-Encoding header (%s): the announced coding is applied for one kind of framing and forgotten for the other, '
+                    'so the rebuilt message announces gzip over a plain body, or keeps a coding it cannot produce' % ', '.join('%s=%s' % kv for kv in f.items() if 'chunk' in kv[0]), p.describe())
+        elif compressed != want:
             bad5 = ('the stored body is %scompressed although Content-Encoding %s gzip' % ('' if compressed else 'not ', 'is' if want else 'is not'), p.describe())
         inner = v.args[0] if compressed else v  # type: ignore[attr-defined]
         if not (isinstance(inner, ast.Name) and inner.id == bparam):
@@ -481,7 +505,7 @@ def _cl_store_kind(slice_value: ast.AST, m: Any, ce: ConstEval) -> Optional[str]
     if isinstance(v, ast.Call) and attr_chain(v.func) == 'next' and len(v.args) == 2 and ce.try_eval(m, v.args[1]) == b'Content-Length' and \
             isinstance(v.args[0], (ast.GeneratorExp, ast.ListComp)) and len(v.args[0].generators) == 1:
         g_ = v.args[0].generators[0]
-        key = _key_var(g_.target, g_.iter)
+        key = g_.target.id if isinstance(g_.target, ast.Name) else _key_var(g_.target, g_.iter)      # whatever the map is called (or was folded into) on this path
         if key is not None and norm(v.args[0].elt) == key and len(g_.ifs) == 1:
             t = g_.ifs[0]
             if isinstance(t, ast.Compare) and len(t.ops) == 1 and isinstance(t.ops[0], ast.Eq):
